@@ -21,7 +21,8 @@ type Trace struct {
 	Errs    []string    // implementation error text per step (diagnostics only)
 	// coverage facts
 	PoS, HouseExit, Renewed, Withdrew, DelWithdrew, Evicted, SecondWithdrawZero bool
-	Classes                                                                  [4]int
+	Classes                                                                     [4]int
+	NVals, NDels                                                                int
 }
 
 func checkFor(prop string, g Cfg, prev, cur *Obs, o Op, out Outcome, led *Ledger) []Failure {
@@ -75,6 +76,7 @@ func Generate(prop string, r *hx.Rand, nops int) *Trace {
 }
 
 func (t *Trace) note(g Cfg, prev, cur *Obs, o Op, out Outcome) {
+	t.NVals, t.NDels = len(cur.Vals), len(cur.Dels)
 	if out.Class >= 0 && out.Class < 4 {
 		t.Classes[out.Class]++
 	}
@@ -118,7 +120,9 @@ func leaderSet(o *Obs) string {
 	return strings.Join(l, ",")
 }
 
-func (t *Trace) nontrivial() bool { return t.PoS && t.HouseExit && t.Renewed && (t.Withdrew || t.DelWithdrew) }
+func (t *Trace) nontrivial() bool {
+	return t.PoS && t.HouseExit && t.Renewed && (t.Withdrew || t.DelWithdrew)
+}
 
 // firstDiff compares the implementation's renders with the oracle's answer line.
 func firstDiff(t *Trace, answer string) (int, string, string) {
@@ -278,7 +282,7 @@ func Main(prop string) {
 			}
 		}
 	}
-	n := ctx.Scale(300, 20000)
+	n := ctx.Scale(800, 20000)
 	nops := 160
 	root := hx.NewRand(ctx.Seed)
 	const batch = 20
@@ -305,9 +309,14 @@ func Main(prop string) {
 			ctx.Cov.Add("ops_ok", t.Classes[0])
 			ctx.Cov.Add("ops_revert", t.Classes[1])
 			ctx.Cov.Add("ops_error", t.Classes[2])
-			for _, o := range t.Case.Ops {
+			for j, o := range t.Case.Ops {
 				ctx.Cov.Count("op_" + o.K)
+				if j < len(t.Renders) && len(t.Renders[j]) > 0 && t.Renders[j][0] != '0' {
+					ctx.Cov.Count("fail_" + o.K + "_class" + t.Renders[j][:1])
+				}
 			}
+			ctx.Cov.Bucket("validators_created", t.NVals)
+			ctx.Cov.Bucket("delegations_created", t.NDels)
 			for k, b := range map[string]bool{"reached_pos": t.PoS, "housekeeping_exit": t.HouseExit, "renewal_moved_stake": t.Renewed,
 				"validator_withdrew": t.Withdrew, "delegation_withdrew": t.DelWithdrew, "eviction_or_exit_signal_at_housekeeping": t.Evicted} {
 				if b {
